@@ -16,7 +16,7 @@ RULE = ('one case = a seeded sequence of 8..30 adapter operations (upload of byt
         'adapter with seeded object names and prefixes over printable ASCII (space + = & % * ~ quotes parentheses ? #) and non-ASCII, seeded '
         'endpoint (lower-case, mixed case, explicit non-default port, explicit default port, http/https), region, credentials, a simulated '
         'clock placed anywhere in the day incl. seconds before midnight, and seeded transient faults (so that retried attempts are signed at '
-        'a later time, across date changes). Every request that reaches FakeS3 is re-verified from its wire bytes (method, raw target, '
+        'a later time, across date changes; 301/307 answers pointing at another spelling of the resource or another host). Every request that reaches FakeS3 is re-verified from its wire bytes (method, raw target, '
         'headers as sent, body received) by an independent SigV4 implementation (sim/ref_sigv4.py); payload hash and content-length must '
         'match the body; the Host header must be the endpoint. distinct_nontrivial = distinct event-log digests')
 COMPONENTS = {
@@ -25,7 +25,7 @@ COMPONENTS = {
     'reference': ['sim/ref_sigv4.py (AWS SigV4 for S3 from the published algorithm)'],
 }
 ASSUMPTIONS = ['FakeS3 canonicalises like S3: path segments and query pairs percent-decoded then re-encoded with the AWS unreserved set, + in a query means space']
-PROBES = ['retry_signed', 'date_rollover', 'host_mixed_case', 'host_default_port', 'host_custom_port', 'token_special', 'stream_upload', 'list_multi_page', 'name_special', 'aws_s3_class']
+PROBES = ['redirected', 'retry_signed', 'date_rollover', 'host_mixed_case', 'host_default_port', 'host_custom_port', 'token_special', 'stream_upload', 'list_multi_page', 'name_special', 'aws_s3_class']
 TIERS = {'quick': {'budget_s': 50, 'batch': 20}, 'thorough': {'budget_s': 600, 'batch': 40}}
 
 
@@ -69,7 +69,7 @@ def gen_case(seed, tier):
             host = host[:2].lower() + host[2:]
     faults = []
     for _ in range(rng.choice([0, 0, 1, 2])):
-        faults.append({'kind': rng.choice(['status:500', 'status:503', 'read', 'connect']), 'op': rng.choice(['put', 'get', 'list', 'head', 'delete']),
+        faults.append({'kind': rng.choice(['status:500', 'status:503', 'read', 'connect', 'status:307', 'status:307:other-endpoint.test', 'status:301']), 'op': rng.choice(['put', 'get', 'list', 'head', 'delete']),
                        'count': rng.choice([1, 2]), 'skip': rng.randrange(0, 3), 'after_chunks': rng.choice([None, None, 1]), 'lost_response': rng.random() < 0.2})
     tod = rng.choice([rng.randrange(0, 86400), 86399, 86398, 86390, 0, 43200])
     return {'seed': seed, 'sched_seed': seed, 'names': names, 'ops': ops, 'host': host, 'scheme': scheme,
@@ -182,6 +182,8 @@ def run_case(case):
             probes['list_multi_page'] = 1
         if any(f.fired for f in svc.faults):
             probes['retry_signed'] = 1
+        if any(f.fired and f.kind.startswith('status:30') for f in svc.faults):
+            probes['redirected'] = 1
         days = {rq for rq in ()}
     if env.utcnow().date() != epoch.date():
         probes['date_rollover'] = 1
